@@ -226,13 +226,16 @@ func (t *Miner) mining(ctx xctx.XContext) error {
 			"blockId", utils.F(block.GetBlockid()))
 		return err
 	}
-	vhook.
+	{
+		vhArg0 :=
 
-		// 6.异步广播新生成的区块
-		Go(func() {
-
-			t.broadcastBlock(ctx, block)
+			// 6.异步广播新生成的区块
+			ctx
+		vhArg1 := block
+		vhook.Go(func() {
+			t.broadcastBlock(vhArg0, vhArg1)
 		})
+	}
 
 	ctx.GetLog().Trace("complete new block generation", "blockId", utils.F(block.GetBlockid()),
 		"height", height, "costs", ctx.GetTimer().Print())
